@@ -40,18 +40,21 @@ TReset == /\ Consume /\ Ev.ev = "reset" /\ srclen' = Ev.cfg.srclen
           /\ lock' = ("lockstep" \in DOMAIN Ev.cfg) /\ hw' = -1
           /\ IF AcceptReset THEN a' = AInit /\ skip' = FALSE
              ELSE PrintT(<< "REJECT", l, Ev.ev >>) /\ skip' = TRUE /\ UNCHANGED a
+HeapLine == IF LockOK THEN TRUE ELSE PrintT(<< "HEAP", l, Ev.ev >>)   \* C07's lock-step clause, judged on its own
 TOp == /\ Consume /\ Ev.ev # "reset" /\ ~skip /\ UNCHANGED lock
+       /\ HeapLine                                                     \* (also when C13 rejects the event)
        /\ IF Ev.ev = "mark"
             THEN IF AcceptMark
-                   THEN /\ (IF LockOK THEN TRUE ELSE PrintT(<< "HEAP", l, Ev.ev >>))
-                        /\ hw' = IF hw < 0 THEN Ev.o.live ELSE hw
+                   THEN /\ hw' = IF hw < 0 THEN Ev.o.live ELSE hw
                         /\ UNCHANGED << a, srclen, skip >>
                    ELSE PrintT(<< "REJECT", l, Ev.ev >>) /\ skip' = TRUE /\ UNCHANGED << a, srclen, hw >>
             ELSE IF AcceptOp
-                   THEN /\ a' = Step.a /\ (IF LockOK THEN TRUE ELSE PrintT(<< "HEAP", l, Ev.ev >>))
+                   THEN /\ a' = Step.a
                         /\ UNCHANGED << srclen, skip, hw >>   \* otherwise the bus is exempt from the no-allocation rule
                    ELSE PrintT(<< "REJECT", l, Ev.ev >>) /\ skip' = TRUE /\ UNCHANGED << a, srclen, hw >>
-TSkip == Consume /\ Ev.ev # "reset" /\ skip /\ UNCHANGED << a, srclen, skip, lock, hw >>
+\* (after a functional rejection the rest of the execution is not judged for C13, but the lock-step
+\* clause of C07 only reads the logged backlog / footprint, so it still is)
+TSkip == Consume /\ Ev.ev # "reset" /\ skip /\ HeapLine /\ UNCHANGED << a, srclen, skip, lock, hw >>
 TraceInit == l = 1 /\ a = AInit /\ srclen = -1 /\ skip = TRUE /\ lock = FALSE /\ hw = -1
 TraceNext == TReset \/ TOp \/ TSkip
 TraceSpec == TraceInit /\ [][TraceNext]_vars
